@@ -795,6 +795,26 @@ pub fn space(tier: Tier, id: &str) -> Option<Box<dyn Space>> {
             Some(Box::new(AllAtOnce { sets }))
         }
         "dims" => Some(Box::new(Dims)),
+        "overwrite-same-attribute" => {
+            // one workbook per attribute: every ordered pair (k1, k2) of its values applied to the SAME style object one
+            // after the other (a gradient fill, then a background colour; a theme font colour, then an rgb one ...): what
+            // the style shows in memory after the second call is what the reloaded cell must show
+            let mut sets: Vec<(&'static str, Vec<Spec>)> = vec![];
+            for (a, (name, n)) in ATTRS.iter().enumerate() {
+                let mut v = vec![];
+                for k1 in 0..*n {
+                    for k2 in 0..*n {
+                        if k1 != k2 {
+                            v.push(vec![(a, k1), (a, k2)]);
+                        }
+                    }
+                }
+                if !v.is_empty() {
+                    sets.push((*name, v));
+                }
+            }
+            Some(Box::new(AllAtOnce { sets }))
+        }
         "transfer" => Some(Box::new(Transfer { s1: sigma1() })),
         "second-session" => {
             let fresh: Vec<Spec> = vec![vec![], vec![(4, 0)], vec![(0, 2)], vec![(1, 1)], vec![(0, 0), (1, 2)]];
@@ -821,7 +841,7 @@ fn replay(tier: Tier, case: &Value) -> Vec<Violation> {
 }
 
 fn run(ctx: &Ctx) -> i32 {
-    let ids = ["pairs", "all-at-once", "dims", "transfer", "edit-after-load", "second-session"];
+    let ids = ["pairs", "all-at-once", "dims", "transfer", "edit-after-load", "second-session", "overwrite-same-attribute"];
     let spaces = ids.iter().map(|id| (*id, space(ctx.tier, id).unwrap())).collect();
     run_e1(
         ctx,
@@ -829,7 +849,7 @@ fn run(ctx: &Ctx) -> i32 {
             spaces,
             cfg: PoolCfg { chunk: 16, case_timeout: std::time::Duration::from_secs(300), ..Default::default() },
             level: "exploration",
-            rule: "style alphabet = base + every single-attribute variation (sigma1) + every pair of variations (sigma2) + a separator-collision family; (pairs) every ordered pair of sigma1 in a two-cell workbook, alternating writers; (all-at-once) whole sets in one workbook in forward and reverse order, which covers every ordered (earlier, later) pair for interning merges; (dims) every assignment of 4 states to columns 1..5 and rows 1..3; (transfer) every sigma1 style read back from one workbook and given to a cell of another reloaded workbook whose tables use the same ids for other components; (edit-after-load) two cells sharing one sigma1 style (quick: every third), reloaded, one of them edited in place with every single variation, compared with a twin workbook that was given the final styles directly (the sibling must not change); (second-session) a saved workbook is reloaded and new cells get styles built from scratch - three times a style the file already contains and once another one - compared cell by cell with a twin that was given everything in one session. Oracle: field-by-field effective style projection given == reloaded, where a never-set component equals the component shown by control cells after reload; style tables of generation 2 == generation 3 (read by the independent Python decoder). distinct_nontrivial = distinct reloaded effective projections".into(),
+            rule: "style alphabet = base + every single-attribute variation (sigma1) + every pair of variations (sigma2) + a separator-collision family; (pairs) every ordered pair of sigma1 in a two-cell workbook, alternating writers; (all-at-once) whole sets in one workbook in forward and reverse order, which covers every ordered (earlier, later) pair for interning merges; (dims) every assignment of 4 states to columns 1..5 and rows 1..3; (transfer) every sigma1 style read back from one workbook and given to a cell of another reloaded workbook whose tables use the same ids for other components; (edit-after-load) two cells sharing one sigma1 style (quick: every third), reloaded, one of them edited in place with every single variation, compared with a twin workbook that was given the final styles directly (the sibling must not change); (overwrite-same-attribute) per attribute every ordered pair of its values applied to the same style object one after the other; (second-session) a saved workbook is reloaded and new cells get styles built from scratch - three times a style the file already contains and once another one - compared cell by cell with a twin that was given everything in one session. Oracle: field-by-field effective style projection given == reloaded, where a never-set component equals the component shown by control cells after reload; style tables of generation 2 == generation 3 (read by the independent Python decoder). distinct_nontrivial = distinct reloaded effective projections".into(),
             alphabets: json!({"attributes": ATTRS.iter().map(|a| format!("{}x{}", a.0, a.1)).collect::<Vec<_>>(), "sigma1": sigma1().len(), "sigma2": sigma2().len(), "collision_family": collision_family().len()}),
             bounds: json!({"all-at-once": if ctx.tier == Tier::Thorough {"sigma1 + sigma2 + collision family in one workbook"} else {"sigma1; collision family; sigma2 restricted to the seven font attributes"}}),
             exhaustive: true,
